@@ -126,7 +126,17 @@ func (t *tr) typeInvDepth(x Term, T types.Type, env Env, depth int) Term {
 	case *types.Map, *types.Chan:
 		top := t.readIn(env, t.allocTop)
 		return and(le(intLit(0), x), le(x, top))
-	case *types.Interface, *types.Signature:
+	case *types.Interface:
+		// a non-nil value of interface type T has a dynamic type that implements T
+		if u.NumMethods() == 0 {
+			return tTrue
+		}
+		W := t.V.W
+		W.declFun("dyntype", []string{SInt}, SInt)
+		name := "implements$" + typeKey(T)
+		W.declFun(name, []string{SInt}, SBool)
+		return or(eq(x, intLit(0)), app(sym(name), SBool, app("dyntype", SInt, x)))
+	case *types.Signature:
 		return tTrue
 	case *types.Slice:
 		top := t.readIn(env, t.allocTop)
